@@ -781,7 +781,39 @@ func checkC12(c *Ctx) *core.Result {
 			r.Fail("K5", core.QualName(tokenize), "virtual-quote delimiter", p.Pos(vq.Pos()), "delimiter is not computed from the state's flags")
 		}
 		hasPos0, hasQuote := false, false
+		guardFacts := ssax.Facts(vq.Block())
+		// a guard that is a boolean helper (`if s.startInQuote()`): the facts of its one way of answering true
 		for _, f := range ssax.Facts(vq.Block()) {
+			if call, ok := f.Cond.(*ssa.Call); ok && f.True {
+				if h := call.Common().StaticCallee(); h != nil && p.InModule(h) && len(h.Blocks) <= 8 {
+					// the facts that hold on every way the helper answers true
+					ways := ssax.TrueWays(h, nil, 0)
+					if len(ways) > 0 {
+						type fk struct {
+							c ssa.Value
+							t bool
+						}
+						count := map[fk]int{}
+						for _, w := range ways {
+							seen := map[fk]bool{}
+							for _, wf := range w.Facts {
+								k := fk{wf.Cond, wf.True}
+								if !seen[k] {
+									seen[k] = true
+									count[k]++
+								}
+							}
+						}
+						for _, wf := range ways[0].Facts {
+							if count[fk{wf.Cond, wf.True}] == len(ways) {
+								guardFacts = append(guardFacts, wf)
+							}
+						}
+					}
+				}
+			}
+		}
+		for _, f := range guardFacts {
 			bo, ok := f.Cond.(*ssa.BinOp)
 			if !ok {
 				continue
